@@ -53,7 +53,7 @@ Print Assumptions C01_writers_session.
 (* the deferred writer (path or stream target, no write faults), closed after at least one Put *)
 Theorem C01_writers_deferred :
   forall (c : dcfg) (ops : list dop) (s : wstate),
-    dc_faults c = [] ->
+    dc_faults c = [] -> dc_kids c = [] ->
     d_inner (d_run c d_init ops) = Some s -> existsb is_close ops = true ->
     let o := eff_opts c in
     let ro := roots_opt (dc_nilroots c) (dc_roots c) in
